@@ -435,6 +435,9 @@ def main(chk):
     c01.rule_cell_counts(chk)
     # the hash tables behind sh / esh / strat_hash keep and find every occupied cell (rule shared with C01)
     c01.rule_cxx_headers(chk)
+    # every algorithm finds the same cells as the others: cell ids keep their width from binning to look-up, and a query decodes the source array with the source array's layout
+    c01.rule_narrowing(chk)
+    c01.rule_query_array_index(chk)
     # whether the neighbours are refreshed before an evaluation is decided by the integrator's request alone (rule shared with C04)
     spec4 = importlib.util.spec_from_file_location('c04mod', os.path.join(os.path.dirname(os.path.abspath(__file__)), 'c04.py'))
     c04 = importlib.util.module_from_spec(spec4)
